@@ -43,8 +43,16 @@ impl ActTask for Workflow {
         let task = ctx.task();
         let state = task.state();
         if state.is_running() {
-            task.set_state(TaskState::Completed);
-            return Ok(true);
+            // the workflow is done when every task started directly beneath it is done
+            // (lifecycle-hook acts aside): a setup act that finishes early must not end it
+            let done = task
+                .children()
+                .iter()
+                .all(|t| t.state().is_completed() || t.is_event_processed());
+            if done {
+                task.set_state(TaskState::Completed);
+                return Ok(true);
+            }
         }
 
         Ok(false)
